@@ -224,8 +224,9 @@ def signature_diff(a, b):
 
 
 def _type_refines(a, b, name, is_input):
-    """Declared type comparison: element type and rank must be kept; a symbolic/unknown dimension may be
-    refined to a value but a declared dimension value / name must not change (inputs: nothing may change)."""
+    """Declared type comparison: element type and rank must be kept; a declared dimension value must not change.
+    Outputs: a symbolic/unknown dimension may be refined.  Inputs: a dimension name must stay and no dimension may
+    become a fixed value (that would narrow the interface); an unknown dimension may get a name."""
     va = next(v for v in (a.graph.input if is_input else a.graph.output) if v.name == name)
     vb = next(v for v in (b.graph.input if is_input else b.graph.output) if v.name == name)
     ta, tb = va.type, vb.type
@@ -235,8 +236,8 @@ def _type_refines(a, b, name, is_input):
         return ta == tb
     if ta.tensor_type.elem_type != tb.tensor_type.elem_type:
         return False
-    if is_input:
-        return ta.tensor_type.shape == tb.tensor_type.shape
+    if is_input and ta.tensor_type.HasField("shape") != tb.tensor_type.HasField("shape"):
+        return False
     if not ta.tensor_type.HasField("shape"):
         return True
     if not tb.tensor_type.HasField("shape"):
@@ -247,4 +248,10 @@ def _type_refines(a, b, name, is_input):
     for x, y in zip(da, db):
         if x.HasField("dim_value") and not (y.HasField("dim_value") and y.dim_value == x.dim_value):
             return False
+        if is_input:
+            # an input dimension must not be narrowed: a symbolic name stays, an unknown dimension may get a name only
+            if x.HasField("dim_param") and not (y.HasField("dim_param") and y.dim_param == x.dim_param):
+                return False
+            if not x.HasField("dim_value") and y.HasField("dim_value"):
+                return False
     return True
